@@ -52,14 +52,28 @@ ONE = Mono()
 TT = Mono(1, 1, 0)
 
 
+def real_form(m):
+    """for a real trailing factor T^2 = |T|^2: even powers of T are powers of |T|"""
+    if m is None or m.a.denominator != 1:
+        return m
+    a = int(m.a)
+    r = a % 2
+    return Mono(m.s, r, m.b + (a - r))
+
+
 class Tail:
-    def __init__(self, tname, boundary_text, rank):
+    def __init__(self, tname, boundary_text, rank, real=False):
+        self.real = real                   # the trailing factor is known to be real (documented for the QR sweeps)
         self.tname = tname
         self.boundary = boundary_text      # normalised text of the boundary tensor slot, e.g. self.A[-1]
         self.rank = rank
         self.paths = []                    # (scale Mono, returned expr value, facts, return node)
 
     def ev(self, e, env):
+        v = self._ev(e, env)
+        return real_form(v) if getattr(self, 'real', False) else v
+
+    def _ev(self, e, env):
         """monomial value of a scalar expression, or None"""
         if isinstance(e, ast.Constant) and isinstance(e.value, (int, float)):
             if e.value == 1:
@@ -84,6 +98,11 @@ class Tail:
             if a is None or b is None:
                 return None
             return a * (b if isinstance(e.op, ast.Mult) else b.inv())
+        if isinstance(e, ast.Call) and norm(e.func) == 'np.sign' and len(e.args) == 1:
+            v = self.ev(e.args[0], env)
+            if v is None:
+                return None
+            return Mono(v.s, v.a, -v.a)       # sign(s T^a |T|^b) = s T^a |T|^-a for T != 0 (and 0 at T = 0)
         if isinstance(e, ast.Call) and norm(e.func) in ('abs', 'np.abs', 'np.absolute') and len(e.args) == 1:
             v = self.ev(e.args[0], env)
             if v is None:
